@@ -450,11 +450,11 @@ pub fn daemon_c20(out: &mut Out, tier: &str, rng: &mut Rng) {
             .env("GLONAX_VERIF_BUS", dir.join("bus")).env_remove("GLONAX_VERIF_BUS_LOOPBACK")
             .stdout(std::process::Stdio::null()).stderr(std::process::Stdio::null())
             .spawn().expect("spawn glonaxd");
-        // start-up: collect what every network puts on its bus during the first 1.5 s (or until all have claimed + 200 ms)
+        // start-up: collect what every network puts on its bus during the first 6 s (normally: until all have claimed + 200 ms)
         let t0 = Instant::now();
         let mut seen: Vec<Vec<[u8; 16]>> = vec![vec![]; nets];
         let mut all_claimed_at: Option<Instant> = None;
-        while t0.elapsed() < Duration::from_millis(1500) {
+        while t0.elapsed() < Duration::from_millis(6000) {
             for (i, b) in buses.iter().enumerate() {
                 seen[i].extend(b.sync());
             }
@@ -472,14 +472,14 @@ pub fn daemon_c20(out: &mut Out, tier: &str, rng: &mut Rng) {
         let mut toks = vec![];
         for (i, c) in cfgs.iter().enumerate() {
             let claim: Vec<String> = seen[i].iter().filter(|r| (u32::from_le_bytes([r[0], r[1], r[2], r[3]]) >> 8) & 0xFF00 == 0xEE00 && r[0] == c.address).map(|r| raw_to_frame_tok(r, c.address)).collect();
-            // the two requests, each answered (or not) within 300 ms
+            // the two requests, each answered (or not) within 1.5 s
             let mut answers = vec![];
             for req in [65242u32, 60928] {
                 let _ = buses[i].sync();
                 buses[i].inject(&crate::auth::raw_of(crate::drv::make_id(6, 59904, c.address, 0x10), &[(req & 0xFF) as u8, (req >> 8) as u8, (req >> 16) as u8]));
                 let t = Instant::now();
                 let mut got: Vec<String> = vec![];
-                while t.elapsed() < Duration::from_millis(300) && got.is_empty() {
+                while t.elapsed() < Duration::from_millis(1500) && got.is_empty() {
                     for r in buses[i].sync() {
                         let id = u32::from_le_bytes([r[0], r[1], r[2], r[3]]) & 0x1FFF_FFFF;
                         let g = (id >> 8) & 0xFFFF;
